@@ -8,6 +8,7 @@
                                  outside the pool: verdict undecided)
      G <schema-id> <seed> <n>   generate n well-typed values; answers n lines "<hex>"
      W <schema-id>              "W <schema_wf> <cap> <min_size>"
+     T <schema-id>              "T <tag> ..." the tag table of a top-level sum
 *)
 open C05_model
 
@@ -214,12 +215,20 @@ and gen_refined (p : pred) (s' : schema) : gval =
         if i > 600 then (byte_mode := 0; raise (Gen_failed "refinement not satisfiable by the generator")) else begin
           if i = 150 then byte_mode := 1;
           let v = fixup p (gen s') in
+          let v = if i < 154 then v else (match v with
+              | VBytes bs when i mod 2 = 0 ->          (* "init_" prefix (contract names) *)
+                  let pre = List.map n_of_int [105; 110; 105; 116; 95] in
+                  let keep = max 0 (List.length bs - 5) in
+                  VBytes (pre @ List.filteri (fun j _ -> j < keep) bs)
+              | VBytes (b :: bs) -> VBytes (b :: n_of_int 46 :: (match bs with [] -> [] | _ :: r -> r))   (* a '.' (receive names) *)
+              | VBytes [] -> VBytes [n_of_int 46]
+              | _ -> v) in
           if eval_pred valid p v && wt valid s' v then (if i >= 150 then byte_mode := 0; v) else attempt (i + 1)
         end in
       attempt 0
 
 let find_schema id =
-  match List.find_opt (fun (i, _) -> int_of_n i = id) (chain_schema_table @ gen_schema_table @ full_schema_table) with
+  match List.find_opt (fun (i, _) -> int_of_n i = id) (chain_schema_table @ gen_schema_table @ full_schema_table @ all_schema_table @ manual_schema_table) with
   | Some (_, s) -> s
   | None -> failwith (Printf.sprintf "unknown schema id %d" id)
 
@@ -262,6 +271,10 @@ let () =
               | _ -> Printf.printf "GENFAIL model does not round-trip its own value (schema %d) %s\n" id (hex_of_bytes bs); exit 3);
              print_endline (hex_of_bytes bs)
            done
+       | ["T"; id] ->
+           (match find_schema (int_of_string id) with
+            | SSum alts -> print_string "T"; List.iter (fun (t, _) -> Printf.printf " %d" (int_of_n t)) alts; print_newline ()
+            | _ -> print_endline "T")
        | ["W"; id] ->
            let s = find_schema (int_of_string id) in
            Printf.printf "W %b %s %s\n" (schema_wf s) (n_to_string (cap s)) (n_to_string (min_size s))
